@@ -3,6 +3,7 @@ package main
 import (
 	"fmt"
 	"go/token"
+	"go/types"
 
 	"golang.org/x/tools/go/packages"
 	"golang.org/x/tools/go/ssa"
@@ -30,8 +31,12 @@ func c13ViewRootRefused(c *Ctx) {
 				if !call.Call.IsInvoke() || call.Call.Method.Name() != "MapPath" || len(call.Call.Args) != 1 {
 					continue
 				}
-				if f.Signature.Recv() == nil {
-					continue // mapper combinators (chain) pass paths on; the views are methods of bucket types
+				// mapper combinators (chain) pass paths on: their receiver is itself a Mapper. The views are methods of
+				// bucket types, or package functions those methods share
+				if recv := f.Signature.Recv(); recv != nil {
+					if ms := types.NewMethodSet(recv.Type()); ms.Lookup(nil, "MapPath") != nil || ms.Lookup(f.Pkg.Pkg, "MapPath") != nil {
+						continue
+					}
 				}
 				if namedPath(call.Call.Value.Type()) != modPath+"/private/pkg/storage.Mapper" {
 					continue
